@@ -495,7 +495,7 @@ class HandlerGen:
     is balanced by construction. `wild` (0..1) is the probability of deliberately odd operands (out-of-range indices,
     non-constant property selectors, operands that are not multiples of the record width)."""
 
-    def __init__(self, rng, names, nconst, nargs, nlocals, nhandlers, bpc=6, wild=0.03, hist=None):
+    def __init__(self, rng, names, nconst, nargs, nlocals, nhandlers, bpc=6, wild=0.008, hist=None):
         self.r, self.names, self.nconst, self.nargs, self.nlocals, self.nh, self.bpc, self.wild = rng, names, nconst, nargs, nlocals, nhandlers, bpc, wild
         self.hist = hist if hist is not None else {}
         self.idx = {n: i for i, n in reversed(list(enumerate(names)))}
@@ -637,7 +637,8 @@ class HandlerGen:
         if self.r.random() < self.wild:
             code = Frag(); n = -1    # empty argument list
         code += bytes([0x43 if paren else 0x42, n + 1])
-        t = self.r.choice([1, 2, 3, 3, 4, 5, 5]) if self.r.random() > self.wild else self.r.choice([0, 6, 7])
+        ts = [1, 2, 3, 3] + ([4] if self.nargs else []) + ([5, 5] if self.nlocals else [])
+        t = self.r.choice(ts) if self.r.random() > self.wild else self.r.choice([0, 4, 5, 6, 7])
         if t in (1, 2, 3):
             tgt = Frag(bytes([self.r.choice([0x46, 0x49]), self.nm(self.r.choice([None, b"me", b"gList"]))])) if self.r.random() < 0.9 else self.simple()
         elif t == 4:
@@ -726,7 +727,7 @@ class HandlerGen:
         x = self.r.random()
         if depth >= 3 or x < 0.62:
             return self.simple_stmt(depth, in_tell)
-        body_n = lambda: self.r.choice([0, 1, 1, 2, 2, 3]) if self.r.random() < 0.08 else self.r.choice([1, 1, 2, 2, 3])
+        body_n = lambda: self.r.choice([0, 1, 2]) if self.r.random() < 0.03 else self.r.choice([1, 1, 2, 2, 3])
         if x < 0.74:
             self.h("if")
             c = self.expr(1); a = self.block(body_n(), depth + 1, in_loop, in_tell)
@@ -786,13 +787,16 @@ def rand_const(rng):
         return ("s", bytes(rng.choice(b"abcXYZ 019_,.;:!?()[]#&\"\\\t\r\n\x08\x03\x7f\x80\xca\xff'") for _ in range(rng.choice([0, 1, 2, 3, 5, 8, 13]))))
     if c < 0.8:
         return ("i", rng.choice([0, 1, -1, 6, 12, 70000, -70000, 2 ** 31 - 1, -2 ** 31, rng.randrange(-2 ** 31, 2 ** 31), rng.randrange(0, 100)]))
-    e = rng.choice([0x3FFF, 0x4000, 0x4005, 0x3FF0, 0x3FBC, 0x4040, 0xC000, 0xBFFF, 0, 1, 0x7FFF, 0x43FE, 0x43FF, 0x3C00, 0x3BCD, rng.randrange(0x3F00, 0x4100), rng.randrange(0, 0x10000)])
+    e = rng.choice([0x3FFF, 0x4000, 0x4005, 0x3FF0, 0x3FBC, 0x4040, 0xC000, 0xBFFF, 0x3C00, 0x3BCD, 0x43FE, rng.randrange(0x3F00, 0x4100),
+                    rng.randrange(0x3F00, 0x4100), rng.randrange(0x3BC0, 0x4400)])
+    if rng.random() < 0.012:
+        e = rng.choice([0, 1, 0x7FFF, 0x43FF, 0xFFFF, rng.randrange(0, 0x10000)])
     q = rng.choice([0x8000000000000000, 0xC000000000000000, 0xC00C49BA5E353F7D, 0, 0xFFFFFFFFFFFFFFFF, 0xFFFFFFFFFFFFF800, 0x8000000000000400, 0x8000000000000C00,
                     rng.randrange(0, 2 ** 64), rng.randrange(2 ** 63, 2 ** 64), int(rng.choice([0.1, 0.5, 3.001, 1e10, 123456.789, 2.5e-5])* 2 ** 63) | 2 ** 63])
     return ("f", struct.pack(">HQ", e, q & (2 ** 64 - 1)))
 
 
-def rand_script(rng, wild=0.03, hist=None, max_stmts=6):
+def rand_script(rng, wild=0.008, hist=None, max_stmts=6):
     """a random script: (lscr bytes, lnam bytes, spec dict)"""
     names = list(BASE_NAMES)
     rng.shuffle(names)
